@@ -8,10 +8,10 @@ import (
 	"bytes"
 	"fmt"
 	"go/ast"
-	"go/importer"
 	"go/parser"
 	"go/token"
 	"go/types"
+	"strings"
 	"testing"
 
 	"github.com/goplus/gogen"
@@ -43,9 +43,19 @@ func goCheck(src string) error {
 	if err != nil {
 		return fmt.Errorf("parse: %w", err)
 	}
-	conf := types.Config{Importer: importer.Default()}
-	_, err = conf.Check("main", fs, []*ast.File{f}, nil)
-	return err
+	// unused variables and imports are left to the Go compiler by the property: ignore them
+	var first error
+	conf := types.Config{Importer: imp, Error: func(e error) {
+		msg := e.Error()
+		if strings.Contains(msg, "declared and not used") || strings.Contains(msg, "imported and not used") {
+			return
+		}
+		if first == nil {
+			first = e
+		}
+	}}
+	conf.Check("main", fs, []*ast.File{f}, nil)
+	return first
 }
 
 // accepted runs build and reports whether the builder accepted it (no panic, no error).
